@@ -555,21 +555,7 @@ Proof.
   apply IH. apply uniq_In. apply in_or_app. left. exact Hin.
 Qed.
 
-(* r4_gain_ok as specified holds for ANY s': [candidates] is seeded with s'
-   itself, so every gained state is its own justification *)
-Lemma r4_gain_ok_any : forall sc mt called s s', r4_gain_ok sc mt called s s' = true.
-Proof.
-  intros sc mt called s s'. unfold r4_gain_ok. rewrite forallb_forall.
-  intros g Hg. unfold diff in Hg. apply filter_In in Hg. destruct Hg as [Hg _].
-  unfold gain_justified, candidates. apply mem_In. apply add_closure_incl.
-  apply uniq_In. apply in_or_app. right. apply in_or_app. right. exact Hg.
-Qed.
-
-Lemma r4_gain_lemma : forall sc topo active mt called,
-  r4_gain_ok sc mt called active (resolve sc topo active mt called) = true.
-Proof. intros. apply r4_gain_ok_any. Qed.
-
-(* the informative version: an explicit Add chain of depth <= 2 *)
+(* membership in the resolver's target: an explicit Add chain of depth <= 2 *)
 Lemma parse_add_loop_In : forall c l visited x,
   In x (parse_add_loop c visited l) ->
   exists a, In a l /\
@@ -678,3 +664,295 @@ Lemma r4_gain_partial_nonvacuous_lemma :
   In 0 (states_to_set MAdd [0] []) /\ In 1 (s_add (sget r3_schema 0)) /\
   In 2 (s_add (sget r3_schema 1)).
 Proof. vm_compute. intuition. Qed.
+
+(* ------------------------------------------------------------------ *)
+(* (8) R4 gain against [candidates] = Add-closure of called ++ active  *)
+(* ------------------------------------------------------------------ *)
+
+Lemma sget_add_lt : forall sc a x, In x (s_add (sget sc a)) -> a < length sc.
+Proof.
+  intros sc a x Hin. destruct (lt_dec a (length sc)) as [Hlt|Hge]; [exact Hlt|].
+  unfold sget in Hin. rewrite nth_overflow in Hin by lia. simpl in Hin. contradiction.
+Qed.
+
+Lemma add_closure_S_step : forall f sc l a x,
+  In a l -> In x (s_add (sget sc a)) -> In x (add_closure (S f) sc l).
+Proof.
+  intros f sc l a x Ha Hx. simpl. apply add_closure_incl. apply uniq_In.
+  apply in_or_app. right. apply in_flat_map. exists a. split; assumption.
+Qed.
+
+Lemma closure_depth1 : forall sc l a x,
+  In a l -> In x (s_add (sget sc a)) -> In x (add_closure (length sc) sc l).
+Proof.
+  intros sc l a x Ha Hx. pose proof (sget_add_lt sc a x Hx) as Hlt.
+  remember (length sc) as n eqn:En. destruct n as [|n]; [lia|].
+  eapply add_closure_S_step; eassumption.
+Qed.
+
+Lemma closure_depth2 : forall sc l a b x,
+  In a l -> In b (s_add (sget sc a)) -> In x (s_add (sget sc b)) ->
+  In x (add_closure (length sc) sc l).
+Proof.
+  intros sc l a b x Ha Hb Hx.
+  destruct (Nat.eq_dec a b) as [Heq|Hne].
+  - subst b. eapply closure_depth1; eassumption.
+  - pose proof (sget_add_lt sc a b Hb) as Hlta.
+    pose proof (sget_add_lt sc b x Hx) as Hltb.
+    remember (length sc) as n eqn:En. destruct n as [|[|n]]; [lia|lia|].
+    change (In x (add_closure (S n) sc
+      (uniq (l ++ flat_map (fun a0 => s_add (sget sc a0)) l)))).
+    apply add_closure_S_step with (a := b); [|exact Hx].
+    apply uniq_In. apply in_or_app. right. apply in_flat_map. exists a. split; assumption.
+Qed.
+
+Lemma ts_in_seed : forall mt called active a,
+  In a (states_to_set mt called active) ->
+  In a (uniq ((match mt with MRemove => [] | _ => called end) ++ active)).
+Proof.
+  intros mt called active a Hin. apply uniq_In. destruct mt; simpl in *.
+  - exact Hin.
+  - apply filter_In in Hin. tauto.
+  - apply in_or_app. left. exact Hin.
+Qed.
+
+Lemma r4_gain_lemma : forall sc topo active mt called,
+  r4_gain_ok sc mt called active (resolve sc topo active mt called) = true.
+Proof.
+  intros sc topo active mt called. unfold r4_gain_ok. rewrite forallb_forall.
+  intros g Hg. unfold diff in Hg. apply filter_In in Hg. destruct Hg as [Hg Hna].
+  apply negb_true_iff in Hna. apply mem_false in Hna.
+  unfold gain_justified, candidates. apply mem_In.
+  destruct (r4_gain_partial_lemma sc topo active mt called g Hg Hna)
+    as [[Hc Hmt]|[[a [Ha Hx]]|[a [b [Ha [Hb Hx]]]]]].
+  - apply add_closure_incl. apply uniq_In. apply in_or_app. left.
+    destruct mt; [exact Hc | congruence | exact Hc].
+  - apply ts_in_seed in Ha. eapply closure_depth1; eassumption.
+  - apply ts_in_seed in Ha. eapply closure_depth2; eassumption.
+Qed.
+
+Lemma r4_gain_nonvacuous_lemma :
+  diff (resolve r3_schema [] [] MAdd [0]) [] = [2; 0; 1] /\
+  candidates r3_schema MAdd [0] [] = [0; 1; 2; 3] /\
+  diff (resolve [mk_sd false [] [1] []; mk_sd false [] [7] []] [] [] MAdd [0]) [] = [7; 0; 1] /\
+  candidates [mk_sd false [] [1] []; mk_sd false [] [7] []] MAdd [0] [] = [0; 1; 7].
+Proof. vm_compute. repeat split; reflexivity. Qed.
+
+(* ------------------------------------------------------------------ *)
+(* R4 loss                                                             *)
+(* ------------------------------------------------------------------ *)
+
+Lemma forallb_false_ex : forall (A : Type) (f : A -> bool) l,
+  forallb f l = false -> exists x, In x l /\ f x = false.
+Proof.
+  intros A f l. induction l as [|y r IH]; simpl; intros H; [discriminate|].
+  destruct (f y) eqn:E.
+  - simpl in H. destruct (IH H) as [x [Hx Hf]]. exists x. tauto.
+  - exists y. tauto.
+Qed.
+
+Lemma negb_forallb_intro : forall (A : Type) (f : A -> bool) l r,
+  In r l -> f r = false -> negb (forallb f l) = true.
+Proof.
+  intros A f l r Hin Hf. destruct (forallb f l) eqn:E; [|reflexivity].
+  rewrite forallb_forall in E. rewrite (E r Hin) in Hf. discriminate.
+Qed.
+
+(* a state dropped by parseRequire misses a Require in the result *)
+Lemma parse_require_fuel_dropped : forall fuel sc states x,
+  In x states -> ~ In x (parse_require_fuel fuel sc states) ->
+  exists r, In r (s_require (sget sc x)) /\ ~ In r (parse_require_fuel fuel sc states).
+Proof.
+  induction fuel as [|f IH]; intros sc states x Hin Hout; simpl in *; [contradiction|].
+  destruct (Nat.eqb (length (filter (req_ok sc states) states)) (length states)); [contradiction|].
+  destruct (req_ok sc states x) eqn:E.
+  - apply IH; [|exact Hout]. apply filter_In. tauto.
+  - unfold req_ok in E. apply forallb_false_ex in E. destruct E as [r [Hr Hm]].
+    exists r. split; [exact Hr|]. apply mem_false in Hm. intros Hin'.
+    apply parse_require_fuel_incl in Hin'. apply filter_In in Hin'. tauto.
+Qed.
+
+Lemma parse_require_dropped : forall sc states x,
+  In x states -> ~ In x (parse_require sc states) ->
+  exists r, In r (s_require (sget sc x)) /\ ~ In r (parse_require sc states).
+Proof. intros sc states x. apply parse_require_fuel_dropped. Qed.
+
+(* a state dropped by the scan has a blocker in the scanned list *)
+Lemma scan_fold_complete : forall sc all l kept ab k' ab',
+  fold_left (scan_step sc all) l (kept, ab) = (k', ab') ->
+  (forall x, In x kept -> In x k') /\
+  (forall x, In x l -> In x k' \/
+     exists b, In b all /\ mem x (s_remove (sget sc b)) = true).
+Proof.
+  intros sc all l. induction l as [|name r IH]; intros kept ab k' ab' Hfold.
+  - simpl in Hfold. inversion Hfold; subst. split; [auto | intros x []].
+  - change (fold_left (scan_step sc all) (name :: r) (kept, ab))
+      with (fold_left (scan_step sc all) r (scan_step sc all (kept, ab) name)) in Hfold.
+    destruct (scan_step_cases sc all kept ab name) as [[Hnil Heq]|[Hnn Heq]];
+      rewrite Heq in Hfold; destruct (IH _ _ _ _ Hfold) as [H1 H2].
+    + split.
+      * intros x Hx. apply H1. apply in_or_app. left. exact Hx.
+      * intros x [Hx|Hx]; [|apply H2; exact Hx].
+        subst. left. apply H1. apply in_or_app. right. left. reflexivity.
+    + split; [exact H1|].
+      intros x [Hx|Hx]; [|apply H2; exact Hx].
+      subst. right.
+      destruct (filter (fun b => negb (mem b ab)) (blocked_by sc all x)) as [|b bs] eqn:E;
+        [congruence|].
+      assert (Hb : In b (filter (fun b => negb (mem b ab)) (blocked_by sc all x)))
+        by (rewrite E; left; reflexivity).
+      apply filter_In in Hb. destruct Hb as [Hb _]. unfold blocked_by in Hb.
+      apply filter_In in Hb. exists b. exact Hb.
+Qed.
+
+Lemma blocked_scan_dropped : forall sc all x,
+  In x all -> ~ In x (blocked_scan sc all) ->
+  exists b, In b all /\ mem x (s_remove (sget sc b)) = true.
+Proof.
+  intros sc all x Hin Hout. unfold blocked_scan in Hout.
+  destruct (fold_left (scan_step sc all) (rev all) ([], [])) as [k' ab'] eqn:E.
+  destruct (scan_fold_complete _ _ _ _ _ _ _ E) as [_ H2]. simpl in Hout.
+  destruct (H2 x (proj1 (in_rev all x) Hin)) as [Hk|Hb]; [contradiction | exact Hb].
+Qed.
+
+(* why a requested state can be missing from the target *)
+Lemma target_lost_cases : forall c to_set l,
+  In l to_set -> ~ In l (target_states c to_set) ->
+  (exists r, In r (s_require (sget (rc_schema c) l)) /\ ~ In r (pass1_list c to_set)) \/
+  (exists b, In b (pass1_list c to_set) /\ mem l (s_remove (sget (rc_schema c) b)) = true) \/
+  (exists r, In r (s_require (sget (rc_schema c) l)) /\ ~ In r (target_states c to_set)).
+Proof.
+  intros c to_set l Hin Hout.
+  assert (Hs2 : In l (uniq (parse_add c (uniq to_set)))).
+  { apply uniq_In. unfold parse_add. apply in_or_app. left. apply uniq_In. exact Hin. }
+  destruct (in_dec Nat.eq_dec l (pass1_list c to_set)) as [Hp1|Hp1].
+  2:{ left. unfold pass1_list in *. apply parse_require_dropped; assumption. }
+  right.
+  destruct (in_dec Nat.eq_dec l (resolved_list c to_set)) as [Hres|Hres].
+  2:{ left. unfold resolved_list in Hres. apply blocked_scan_dropped; assumption. }
+  destruct (mem l (flat_map (fun m => s_remove (sget (rc_schema c) m)) (resolved_list c to_set)))
+    eqn:Erem.
+  - left. apply mem_In in Erem. apply in_flat_map in Erem. destruct Erem as [b [Hb Hl]].
+    exists b. split.
+    + unfold resolved_list in Hb. apply blocked_scan_incl in Hb; [exact Hb | apply pass1_NoDup].
+    + apply mem_In. exact Hl.
+  - right.
+    assert (Hun : ~ In l (target_unsorted c to_set)).
+    { intros H. apply Hout. unfold target_states. apply sort_states_In. exact H. }
+    rewrite target_unsorted_eq in Hun. apply parse_require_dropped in Hun.
+    + destruct Hun as [r [Hr Hnr]]. exists r. split; [exact Hr|].
+      intros H. apply Hnr. unfold target_states in H. apply sort_states_In in H.
+      rewrite target_unsorted_eq in H. exact H.
+    + apply -> in_rev. apply uniq_In. apply filter_In. split.
+      * unfold parse_add. apply in_or_app. left. exact Hres.
+      * rewrite Erem. reflexivity.
+Qed.
+
+Lemma pass1_in_candidates : forall sc topo active mt called x,
+  In x (pass1_list {| rc_schema := sc; rc_before := active; rc_mtype := mt;
+                      rc_called := called; rc_topology := topo |}
+                   (states_to_set mt called active)) ->
+  In x (candidates sc mt called active).
+Proof.
+  intros sc topo active mt called x Hin. unfold pass1_list in Hin.
+  apply parse_require_incl in Hin. apply (proj1 (uniq_In _ _)) in Hin.
+  apply parse_add_In in Hin. unfold candidates. destruct Hin as [Hin|[a [Ha Hx]]].
+  - apply (proj1 (uniq_In _ _)) in Hin. apply add_closure_incl. apply ts_in_seed. exact Hin.
+  - apply (proj1 (uniq_In _ _)) in Ha. apply add_of_In in Hx. destruct Hx as [Hx _].
+    simpl in Hx. eapply closure_depth1; [apply ts_in_seed; exact Ha | exact Hx].
+Qed.
+
+Lemma not_in_ts_justified : forall mt called active l,
+  In l active -> ~ In l (states_to_set mt called active) ->
+  match mt with
+  | MRemove => mem l called
+  | MSet => negb (mem l called)
+  | MAdd => false
+  end = true.
+Proof.
+  intros mt called active l Hact Hnot. destruct mt; simpl in *.
+  - exfalso. apply Hnot. apply in_or_app. right. exact Hact.
+  - destruct (mem l called) eqn:E; [reflexivity|].
+    exfalso. apply Hnot. apply filter_In. rewrite E. tauto.
+  - apply negb_true_iff. apply mem_false. exact Hnot.
+Qed.
+
+(* every lost state is justified as specified, or missed a Require already
+   in the first pass (the list entering the scan) *)
+Lemma r4_loss_partial_lemma : forall sc topo active mt called,
+  let c := {| rc_schema := sc; rc_before := active; rc_mtype := mt;
+              rc_called := called; rc_topology := topo |} in
+  let s' := resolve sc topo active mt called in
+  forallb (fun l =>
+      loss_justified sc mt called active s' l
+      || negb (forallb (fun r => mem r (pass1_list c (states_to_set mt called active)))
+                       (s_require (sget sc l))))
+    (diff active s') = true.
+Proof.
+  intros sc topo active mt called c s'. rewrite forallb_forall. intros l Hl.
+  unfold diff in Hl. apply filter_In in Hl. destruct Hl as [Hact Hns].
+  apply negb_true_iff in Hns. apply mem_false in Hns.
+  unfold loss_justified.
+  destruct (in_dec Nat.eq_dec l (states_to_set mt called active)) as [Hts|Hts].
+  2:{ rewrite (not_in_ts_justified mt called active l Hact Hts). reflexivity. }
+  destruct (target_lost_cases c (states_to_set mt called active) l Hts Hns)
+    as [[r [Hr Hnr]]|[[b [Hb Hrem]]|[r [Hr Hnr]]]].
+  - apply orb_true_iff. right.
+    apply negb_forallb_intro with (r := r); [exact Hr | apply mem_false; exact Hnr].
+  - apply orb_true_iff. left. apply orb_true_iff. left. apply orb_true_iff. right.
+    apply existsb_exists. exists b. split; [|exact Hrem].
+    apply in_or_app. left. apply pass1_in_candidates with (topo := topo). exact Hb.
+  - apply orb_true_iff. left. apply orb_true_iff. right.
+    apply negb_forallb_intro with (r := r); [exact Hr | apply mem_false; exact Hnr].
+Qed.
+
+(* R4 loss as specified is violated: 0 (active) Requires 3; 1 Adds 2; 2 Adds 3.
+   Add [1]: 3 is not yet present in the first pass, so 0 is dropped; the
+   second parseAdd pass then brings 3 in, and 0 ends up lost although all
+   its Requires are active and nothing Removes it *)
+Definition r4_loss_schema : schema :=
+  [mk_sd false [3] [] []; mk_sd false [] [2] []; mk_sd false [] [3] []; mk_sd false [] [] [];
+   mk_sd true [] [] []].
+
+Lemma r4_loss_refuted_lemma :
+  exists sc topo active mt called,
+    r4_loss_ok sc mt called active (resolve sc topo active mt called) = false /\
+    active = [0] /\ resolve sc topo active mt called = [3; 1; 2] /\
+    s_require (sget sc 0) = [3].
+Proof. exists r4_loss_schema, [], [0], MAdd, [1]. vm_compute. repeat split; reflexivity. Qed.
+
+(* R4 loss holds whenever the second parseAdd pass adds nothing new *)
+Lemma r4_loss_holds_without_second_pass_additions_lemma : forall sc topo active mt called,
+  let c := {| rc_schema := sc; rc_before := active; rc_mtype := mt;
+              rc_called := called; rc_topology := topo |} in
+  let ts := states_to_set mt called active in
+  every (resolved_list c ts) (parse_add c (resolved_list c ts)) = true ->
+  r4_loss_ok sc mt called active (resolve sc topo active mt called) = true.
+Proof.
+  intros sc topo active mt called c ts Hev.
+  pose proof (r4_loss_partial_lemma sc topo active mt called) as Hp. simpl in Hp.
+  unfold r4_loss_ok. rewrite forallb_forall in *. intros l Hl.
+  specialize (Hp l Hl). apply orb_true_iff in Hp. destruct Hp as [Hp|Hp]; [exact Hp|].
+  apply negb_true_iff in Hp. apply forallb_false_ex in Hp. destruct Hp as [r [Hr Hm]].
+  unfold loss_justified. apply orb_true_iff. right.
+  apply negb_forallb_intro with (r := r); [exact Hr|].
+  apply mem_false. intros Hin. apply mem_false in Hm. apply Hm.
+  unfold resolve in Hin. destruct (target_In _ _ _ Hin) as [Hpa _].
+  unfold every in Hev. rewrite forallb_forall in Hev. specialize (Hev r Hpa).
+  apply mem_In in Hev. unfold resolved_list in Hev.
+  apply blocked_scan_incl in Hev; [exact Hev | apply pass1_NoDup].
+Qed.
+
+Lemma r4_loss_nonvacuous_lemma :
+  (* partial: the refuting run is covered by the extra first-pass disjunct *)
+  pass1_list {| rc_schema := r4_loss_schema; rc_before := [0]; rc_mtype := MAdd;
+                rc_called := [1]; rc_topology := [] |} [1; 0] = [1; 2] /\
+  diff [0] (resolve r4_loss_schema [] [0] MAdd [1]) = [0] /\
+  (* conditional: 0 Removes 1, 1 active, Add [0]: 1 is lost, justified *)
+  (let sc := [mk_sd false [] [] [1]; mk_sd false [] [] []; mk_sd true [] [] []] in
+   let c := {| rc_schema := sc; rc_before := [1]; rc_mtype := MAdd;
+               rc_called := [0]; rc_topology := [] |} in
+   every (resolved_list c [0; 1]) (parse_add c (resolved_list c [0; 1])) = true /\
+   diff [1] (resolve sc [] [1] MAdd [0]) = [1] /\
+   r4_loss_ok sc MAdd [0] [1] (resolve sc [] [1] MAdd [0]) = true).
+Proof. vm_compute. repeat split; reflexivity. Qed.
